@@ -13,6 +13,12 @@ the modules of a package (imports, aliases, re-export) and in the loading sessio
 generated graph says which classes lie on or merely reach a cycle: those must raise ValueError from mro() (nothing
 else, within the step budget), have no inherited members and keep their declared ones; all others keep the CPython
 oracle.
+How bases are reached: in the nested-package workload (pkg / sub-package / sub-sub-package, a second sub-package)
+and in the sessions, classes are declared in plain modules and in the __init__ modules of every level, and every
+base is reached by a randomly chosen spelling out of all that Python offers from that place: absolute and relative
+(``from . / .. / ... import m``, ``from ..m import C``, ``from .. import C``) from-imports with and without ``as``,
+``import a.b.c`` [``as``], ``m.C`` and ``p.m.C`` chains through imported modules / packages, and re-exports by another
+module or an enclosing package's __init__ (names that only exist through that package's namespace).
 Oracle: CPython's ``type()`` builds the very same hierarchy; ``__mro__`` and the first class
 in it defining a name are the expected order / definer.  For sessions CPython additionally imports the
 generated files and must agree with ``type()``.  M-CON contract on ``c3linear_merge``.
@@ -34,7 +40,10 @@ RULE = ("all hierarchies of N classes (N<=5 quick, N<=6 thorough), each class wi
         "inheritance cycles; plus all base graphs of <=3 classes with <=3 bases among ALL classes (self and later "
         "ones included: cycles of length 1-3, classes on / reaching / not reaching a cycle) and seeded hierarchies of "
         "2-7 classes with 1-3 extra bases pointing backwards (mostly at a descendant), in one module or over a "
-        "package (imports, aliases, re-export through __init__); plus seeded loading sessions (30% of them with "
+        "package (imports, aliases, re-export through __init__); plus seeded nested packages (sub-packages 1-2 levels "
+        "deep, half of the classes in __init__ modules, every base reached by one of all absolute / relative / "
+        "dotted-chain / re-export spellings valid at that place, CPython really imports the files); plus seeded "
+        "loading sessions (same spellings, sub-packages; 30% of them with "
         "backward bases): the hierarchy spread over 2-3 top-level packages/modules "
         "(bases through from/aliased/module-attribute/relative imports and re-exports by a third unit), loaded or "
         "visited into one shared collection in a random order (all orders occur) by 1-3 loaders with default or no "
@@ -55,7 +64,10 @@ REQUIRED_COUNTERS = ["mro_compared", "c3_contract_evals", "inherited_lookups_com
                      "cycles_reported", "session_final_classes_judged", "session_classes_judged_mid_session",
                      "session_final_classes_asked_before_bases_loaded", "session_reads_between_loads",
                      "session_cpython_import_agrees", "classes_on_a_cycle_judged",
-                     "classes_reaching_a_cycle_from_outside_judged", "session_cyclic_classes_judged"]
+                     "classes_reaching_a_cycle_from_outside_judged", "session_cyclic_classes_judged",
+                     "tree_classes_judged", "tree_cpython_import_agrees", "bases_of_classes_declared_in_a_subpackage_init",
+                     "bases_reached_by_parent_relative_import", "bases_reached_by_bare_parent_relative_name_in_init",
+                     "bases_reached_through_a_reexport"]
 EXHAUSTIVE = {"quick": True, "thorough": True}  # quick: exhaustive for N<=5 (+ a sample of N=6); thorough: N<=6
 ASSUMPTIONS = ["CPython 3.12 type() is the reference semantics for C3 linearisation and attribute lookup",
                "exhaustive over the stated bounded space only (N classes, <=3 bases); cross-module, cycle and "
@@ -96,6 +108,8 @@ def shards(tier: str, seed: int) -> list[dict]:
     out += [{"kind": "cyclic_exhaustive", "maxn": 3, "part": p, "parts": 4} for p in range(4)]
     for p in range(4 if tier == "quick" else 16):
         out.append({"kind": "cyclic_sampled", "count": 200 if tier == "quick" else 2000, "maxn": 7})
+    for p in range(8 if tier == "quick" else 16):
+        out.append({"kind": "trees", "count": 150 if tier == "quick" else 2500, "maxn": 6})
     for p in range(8 if tier == "quick" else 16):
         out.append({"kind": "sessions", "count": 160 if tier == "quick" else 2500, "maxn": 6})
     if tier == "quick":
@@ -570,6 +584,244 @@ def run_cyclic_sample(rec, rng, steps, maxn):  # noqa: ANN001
 
 
 # ------------------------------------------------------------------------------------------
+# How a base is REACHED: every spelling by which one module of a (nested) package tree gets at a name of another.
+def package_units(rng: random.Random, top: str, inits: set, *, rich: bool) -> list[str]:
+    """The modules of one top-level package: its __init__, plain modules, and (often) a sub-package with its own
+    __init__ and modules, sometimes a sub-sub-package and a second sub-package. Leaf names are unique."""
+    c = top[-1]
+    units = [top] + [f"{top}.{c}{k}" for k in range(rng.randint(1, 2))]
+    inits.add(top)
+    if rng.random() < (0.85 if rich else 0.4):
+        sub = f"{top}.{c}sub"
+        inits.add(sub)
+        units += [sub] + [f"{sub}.{c}n{k}" for k in range(rng.randint(0, 2) if rich else rng.randint(0, 1))]
+        if rng.random() < (0.5 if rich else 0.25):
+            deep = f"{sub}.{c}deep"
+            inits.add(deep)
+            units += [deep] + [f"{deep}.{c}d{k}" for k in range(rng.randint(0, 1))]
+    if rich and rng.random() < 0.4:
+        oth = f"{top}.{c}oth"
+        inits.add(oth)
+        units += [oth] + [f"{oth}.{c}o{k}" for k in range(rng.randint(0, 1))]
+    return units
+
+
+def unit_file(unit: str, inits) -> str:  # noqa: ANN001
+    return unit.replace(".", "/") + ("/__init__.py" if unit in inits else ".py")
+
+
+def reach_forms(hi: str, src: str, name: str, inits) -> list[tuple]:  # noqa: ANN001, C901
+    """Every spelling by which module ``hi`` gets at attribute ``name`` of another module ``src``.
+
+    -> (kind, statement, expression for the attribute, name the statement binds in hi, what that name stands for)
+    """
+    out: list[tuple] = []
+    tag = src.replace(".", "_")
+    attr = ("attr", src, name)
+    out.append(("from", f"from {src} import {name}", name, name, attr))
+    out.append(("from_as", f"from {src} import {name} as K{name}", f"K{name}", f"K{name}", attr))
+    if hi != _top(src):       # "import pk.x" inside pk/__init__.py would bind pk inside pk
+        out.append(("import", f"import {src}", f"{src}.{name}", _top(src), ("module", _top(src))))
+    out.append(("import_as", f"import {src} as mod_{tag}", f"mod_{tag}.{name}", f"mod_{tag}", ("module", src)))
+    parts = src.split(".")
+    if len(parts) > 1:
+        parent, leaf = src.rsplit(".", 1)
+        out.append(("from_parent", f"from {parent} import {leaf}", f"{leaf}.{name}", leaf, ("module", src)))
+        out.append(("from_parent_as", f"from {parent} import {leaf} as sub_{tag}", f"sub_{tag}.{name}", f"sub_{tag}",
+                    ("module", src)))
+    for k in range(2, len(parts)):          # a dotted chain through a package enclosing src
+        anc, rest = ".".join(parts[:k]), ".".join(parts[k:])
+        if anc != hi:
+            out.append(("chain", f"from {'.'.join(parts[:k - 1])} import {parts[k - 1]}", f"{parts[k - 1]}.{rest}.{name}",
+                        parts[k - 1], ("module", anc)))
+    pkg = hi if hi in inits else (hi.rsplit(".", 1)[0] if "." in hi else None)
+    level = 1
+    while pkg:
+        dots, lv = "." * level, f"@{level}"
+        if src == pkg:
+            out.append(("rel_pkg" + lv, f"from {dots} import {name}", name, name, attr))
+            out.append(("rel_pkg_as" + lv, f"from {dots} import {name} as R{name}", f"R{name}", f"R{name}", attr))
+        elif src.startswith(pkg + "."):
+            rest = src[len(pkg) + 1:]
+            out.append(("rel_from" + lv, f"from {dots}{rest} import {name}", name, name, attr))
+            out.append(("rel_from_as" + lv, f"from {dots}{rest} import {name} as R{name}", f"R{name}", f"R{name}", attr))
+            rparts = rest.split(".")
+            out.append(("rel_module" + lv, f"from {dots}{'.'.join(rparts[:-1])} import {rparts[-1]}",
+                        f"{rparts[-1]}.{name}", rparts[-1], ("module", src)))
+            out.append(("rel_module_as" + lv, f"from {dots}{'.'.join(rparts[:-1])} import {rparts[-1]} as rsub_{tag}",
+                        f"rsub_{tag}.{name}", f"rsub_{tag}", ("module", src)))
+            for k in range(1, len(rparts)):
+                anc = pkg + "." + ".".join(rparts[:k])
+                if anc != hi:
+                    out.append(("rel_chain" + lv, f"from {dots}{'.'.join(rparts[:k - 1])} import {rparts[k - 1]}",
+                                f"{rparts[k - 1]}.{'.'.join(rparts[k:])}.{name}", rparts[k - 1], ("module", anc)))
+        level += 1
+        pkg = pkg.rsplit(".", 1)[0] if "." in pkg else None
+    return out
+
+
+FROM_KINDS = ("from", "from_as", "rel_pkg", "rel_pkg_as", "rel_from", "rel_from_as")   # bind the attribute itself
+
+
+def render_units(rng: random.Random, hier, members, units, pos, home, inits, order):  # noqa: ANN001, ANN201, C901, PLR0915
+    """Write the class statements into their home modules, each base reached by a randomly chosen spelling
+    (directly, or through a re-export by a unit that CPython imports in between).
+
+    -> (text per unit, tops each class depends on, aliases of classes, the spelling used for every base)
+    """
+    n = len(hier)
+    imports: dict[str, list[str]] = {u: [] for u in units}
+    bodies: dict[str, list[str]] = {u: [] for u in units}
+    bound: dict[str, dict[str, tuple]] = {u: {} for u in units}    # unit -> name -> what the name stands for
+    chosen: dict[tuple[str, int], tuple[str, set[str], list[str]]] = {}
+    direct: list[set[str]] = [set() for _ in range(n)]            # tops a class's own statement goes through
+    aliases: list[dict] = []
+    reach: list[dict] = []
+
+    def pick(hi: str, src: str, name: str, b: int, through: set[str], only=None):  # noqa: ANN001, ANN202
+        """Choose a spelling whose bound name is still free (or means the same thing) in hi; emit the import."""
+        forms = [f for f in reach_forms(hi, src, name, inits) if only is None or f[0].split("@")[0] in only]
+        relative = [f for f in forms if f[0].startswith("rel_")]
+        pool = relative if relative and rng.random() < 0.6 else forms
+        rng.shuffle(pool)
+        for kind, stmt, expr, bname, what in [*pool, *forms]:
+            if what[0] == "attr":
+                what = ("class", b, src)      # the same class through another route is another binding
+            if bound[hi].setdefault(bname, what) != what:
+                continue
+            if stmt not in imports[hi]:
+                imports[hi].append(stmt)
+                if what[0] == "class":
+                    aliases.append({"cls": b, "path": f"{hi}.{bname}", "needs": {_top(hi)} | through})
+            return kind, expr, bname
+        stmt = f"from {src} import {name} as U{len(imports[hi])}_{b}"      # every natural name is taken
+        imports[hi].append(stmt)
+        return "from_as", stmt.rsplit(" ", 1)[1], stmt.rsplit(" ", 1)[1]
+
+    for i in order:
+        hi = home[i]
+        direct[i].add(_top(hi))
+        exprs = []
+        for b in hier[i]:
+            hb = home[b]
+            if hb == hi:
+                exprs.append(f"C{b}")
+                continue
+            if (hi, b) not in chosen:
+                between = [u for u in units[pos[b] + 1:pos[i]] if u not in (hb, hi)]
+                if between and rng.random() < 0.3:
+                    # re-exported by a unit in between: an enclosing package's __init__, a sibling, another package
+                    via = rng.choice(between)
+                    k1, _e, exported = pick(via, hb, f"C{b}", b, set(), only=FROM_KINDS)
+                    k2, expr, _n = pick(hi, via, exported, b, {_top(via)})
+                    chosen[hi, b] = (expr, {_top(via)}, [k2, "via:" + k1])
+                else:
+                    kind, expr, _n = pick(hi, hb, f"C{b}", b, set())
+                    chosen[hi, b] = (expr, set(), [kind])
+            expr, through, kinds = chosen[hi, b]
+            direct[i] |= through
+            exprs.append(expr)
+            reach.append({"cls": i, "base": b, "kinds": kinds, "in_init": hi in inits, "depth": hi.count(".")})
+        bodies[hi].append(render_class(i, exprs, members[i]))
+    # everything a class depends on: its own statement's route and those of all the classes it reaches
+    needs = [sorted(set().union(direct[i], *(direct[j] for j in _reachable(hier, i)))) for i in range(n)]
+    for a in aliases:
+        a["needs"] = sorted(a["needs"] | set(needs[a["cls"]]))
+    texts = {u: "".join(line + "\n" for line in dict.fromkeys(imports[u])) + "".join(bodies[u]) for u in units}
+    return texts, needs, aliases, reach
+
+
+def note_reach(rec, reach) -> None:  # noqa: ANN001
+    """Evidence: which spellings the bases of a completely judged case were reached by."""
+    for r in reach:
+        for kind in r["kinds"]:
+            rec.add_to_set("base_reached_by", kind + (" in __init__" if r["in_init"] else ""))
+        first = r["kinds"][0]
+        if r["in_init"]:
+            rec.count("bases_of_classes_declared_in_an_init_module")
+            if r["depth"] >= 1:
+                rec.count("bases_of_classes_declared_in_a_subpackage_init")
+        if first.startswith("rel_"):
+            level = int(first.split("@")[1])
+            rec.count("bases_reached_by_relative_import")
+            if level >= 2:
+                rec.count("bases_reached_by_parent_relative_import")
+                if r["in_init"] and "_as" not in first and first.split("@")[0] in ("rel_pkg", "rel_module", "rel_chain"):
+                    rec.count("bases_reached_by_bare_parent_relative_name_in_init")
+        if len(r["kinds"]) > 1:
+            rec.count("bases_reached_through_a_reexport")
+
+
+# ------------------------------------------------------------------------------------------
+# One nested package (pkg / sub-package / sub-sub-package): classes declared in plain modules and in the __init__
+# modules of every level, bases reached by every absolute and relative spelling; CPython imports the very files.
+def gen_tree(rng: random.Random, maxn: int) -> dict:
+    while True:
+        n = rng.randint(2, maxn)
+        hier = [rng.choice(base_choices(i)) for i in range(n)]
+        members = members_for(rng, n)
+        if None in cpython_reference(hier, members)[0] and rng.random() < 0.8:
+            continue
+        inits: set[str] = set()
+        units = package_units(rng, TOPS[0], inits, rich=True)
+        rng.shuffle(units)
+        # half of the classes live in __init__ modules
+        where = [rng.choice(sorted(inits)) if rng.random() < 0.5 else rng.choice(units) for _ in range(n)]
+        pos = sorted(units.index(u) for u in where)
+        home = [units[p] for p in pos]
+        if any(home[b] != home[i] for i, bases in enumerate(hier) for b in bases):
+            break
+    texts, _needs, _aliases, reach = render_units(rng, hier, members, units, pos, home, inits, range(n))
+    return {"kind": "package-tree", "files": {unit_file(u, inits): texts[u] for u in units}, "roots": ["."],
+            "units": units, "home": home, "hier": [list(b) for b in hier], "members": members, "reach": reach,
+            "resolve_aliases": rng.random() < 0.3}
+
+
+def exec_tree(rec, case: dict, steps):  # noqa: ANN001, ANN201
+    hier = tuple(tuple(b) for b in case["hier"])
+    members, home = case["members"], case["home"]
+    mros, definers = graph_reference(hier, members)
+    imported, why = import_reference(case)
+    if imported is None:
+        circular = why in ("ImportError", "AttributeError")
+        rec.count("tree_cpython_import_circular" if circular else "tree_cpython_import_rejected")
+        if all(m is not None for m in mros) and not circular:
+            return (f"harness: CPython cannot import a hierarchy that type() accepts ({why})", why, None)
+    else:
+        rec.count("tree_cpython_import_agrees")
+        if imported != (mros, definers):
+            return ("harness: importing the files in CPython and type() disagree", imported, (mros, definers))
+    _pkg, loader = load_files(case["files"], TOPS[0], resolve_aliases=case.get("resolve_aliases", False))
+
+    def path_of(j: int) -> str:
+        return f"{home[j]}.C{j}"
+
+    for i in range(len(hier)):
+        res = judge_one(rec, i, _walk_to(loader.modules_collection, path_of(i)), mros, definers, members, path_of, steps)
+        if res:
+            return res
+        rec.count("tree_classes_judged")
+    if imported is not None:
+        note_reach(rec, case.get("reach", ()))
+    return None
+
+
+def run_tree(rec, case: dict, steps) -> None:  # noqa: ANN001
+    nontrivial = any(len(b) >= 2 for b in case["hier"])
+    try:
+        with case_watchdog(60):
+            res = exec_tree(rec, case, steps)
+    except (Exception, mon.StepBudgetExceeded) as exc:  # noqa: BLE001
+        rec.fail_exc(case, "exception while loading a nested package / computing MRO", exc, nontrivial=nontrivial)
+        return
+    rec.count("tree_cases")
+    if res:
+        rec.fail(case, res[0], observed=res[1], expected=res[2], nontrivial=nontrivial)
+    else:
+        rec.ok(case, nontrivial=nontrivial, tags=("tree",))
+
+
+# ------------------------------------------------------------------------------------------
 # Loading sessions: the hierarchy is spread over 2-3 *top-level* packages / modules that are brought into one
 # modules collection step by step, in any order, with the accessors read at random places between the steps.
 TOPS = ["pka", "pkb", "pkc"]
@@ -590,14 +842,12 @@ def gen_session(rng: random.Random, maxn: int) -> dict:  # noqa: C901, PLR0912, 
             continue                              # mostly hierarchies CPython accepts; rejected ones stay in the mix
         mode = rng.choice(["load", "load", "load", "visit"])
         tops = TOPS[:rng.randint(2, 3)]
-        shape, units = {}, []
+        units, inits = [], set()
         for t in tops:
-            units.append(t)                       # a single-file module, or the package's __init__
             if mode == "visit" or rng.random() < 0.3:
-                shape[t] = "file"
+                units.append(t)                   # a single-file module
             else:
-                shape[t] = "pkg"
-                units += [f"{t}.m{k}" for k in range(rng.randint(1, 2))]
+                units += package_units(rng, t, inits, rich=False)
         rng.shuffle(units)                        # an order in which CPython can import the units (deps point backwards)
         pos = sorted(rng.randrange(len(units)) for _ in range(n))
         home = [units[p] for p in pos]
@@ -606,99 +856,11 @@ def gen_session(rng: random.Random, maxn: int) -> dict:  # noqa: C901, PLR0912, 
     if rng.random() < 0.3:                        # statically cyclic hierarchies, or merely bases defined "later"
         hier = add_back_edges(rng, hier, rng.randint(1, 2))
     backward = any(b >= i for i, bases in enumerate(hier) for b in bases)
-    imports: dict[str, list[str]] = {u: [] for u in units}
-    bodies: dict[str, list[str]] = {u: [] for u in units}
-    bound: dict[str, dict[str, str]] = {u: {} for u in units}   # unit -> name -> where the name is imported from
-    chosen: dict[tuple[str, int], tuple[str, set[str]]] = {}    # (unit, base) -> (expression, tops it goes through)
-    direct: list[set[str]] = [set() for _ in range(n)]          # tops a class's own statement goes through
-    aliases: list[dict] = []                      # {"cls": b, "path": dotted path of an alias of C<b>, "needs": tops}
-
-    def bind(unit: str, name: str, source: str, stmt: str, b: int, through: set[str]) -> bool:
-        if bound[unit].setdefault(name, source) != source:
-            return False
-        if stmt not in imports[unit]:
-            imports[unit].append(stmt)
-            aliases.append({"cls": b, "path": f"{unit}.{name}", "needs": {_top(unit)} | through})
-        return True
-
-    for i in (text_order(rng, hier) if backward else range(n)):
-        bases = hier[i]
-        hi = home[i]
-        need = direct[i]
-        need.add(_top(hi))
-        exprs = []
-        for b in bases:
-            hb = home[b]
-            if hb == hi:
-                exprs.append(f"C{b}")
-                continue
-            if (hi, b) in chosen:
-                exprs.append(chosen[hi, b][0])
-                need |= chosen[hi, b][1]
-                continue
-            forms = ["from", "from_as", "import_as"]
-            if _top(hb) != _top(hi):
-                forms.append("import")
-            if "." in hb:
-                forms.append("from_parent")
-            if _top(hb) == _top(hi) and shape[_top(hi)] == "pkg":
-                forms.append("rel")
-            between = [u for u in units[pos[b] + 1:pos[i]] if u not in (hb, hi)]
-            if between:
-                forms += ["via", "via"]
-            form = rng.choice(forms)
-            tag = hb.replace(".", "_")
-            through: set[str] = set()
-            expr = None
-            if form == "from" and bind(hi, f"C{b}", hb, f"from {hb} import C{b}", b, set()):
-                expr = f"C{b}"
-            elif form == "import":
-                imports[hi].append(f"import {hb}")
-                expr = f"{hb}.C{b}"
-            elif form == "import_as":
-                imports[hi].append(f"import {hb} as mod_{tag}")
-                expr = f"mod_{tag}.C{b}"
-            elif form == "from_parent":
-                parent, leaf = hb.rsplit(".", 1)
-                imports[hi].append(f"from {parent} import {leaf} as sub_{tag}")
-                expr = f"sub_{tag}.C{b}"
-            elif form == "rel":
-                # hi and hb are units of the same package: "from . import C" (hb is the __init__) or "from .m import C"
-                src = "." if "." not in hb else "." + hb.rsplit(".", 1)[1]
-                bind(hi, f"R{b}", "rel:" + hb, f"from {src} import C{b} as R{b}", b, set())
-                expr = f"R{b}"
-            elif form == "via":
-                # re-exported by a unit in between: the package's own __init__, a sibling module, another package
-                via = rng.choice(between)
-                vtag = via.replace(".", "_")
-                through = {_top(via)}
-                if rng.random() < 0.5 and bound[hi].get(f"C{b}", via) == via \
-                        and bind(via, f"C{b}", hb, f"from {hb} import C{b}", b, set()):
-                    bind(hi, f"C{b}", via, f"from {via} import C{b}", b, through)
-                    expr = f"C{b}"
-                else:
-                    bind(via, f"X{b}", hb, f"from {hb} import C{b} as X{b}", b, set())
-                    bind(hi, f"Y{b}_{vtag}", via, f"from {via} import X{b} as Y{b}_{vtag}", b, through)
-                    expr = f"Y{b}_{vtag}"
-            if expr is None:                      # "from_as", or the plain name is taken by another route
-                bind(hi, f"K{b}", hb, f"from {hb} import C{b} as K{b}", b, set())
-                expr = f"K{b}"
-            chosen[hi, b] = (expr, through)
-            need |= through
-            exprs.append(expr)
-        bodies[hi].append(render_class(i, exprs, members[i]))
-    # everything a class depends on: its own statement's route and those of all the classes it reaches
-    needs = [sorted(set().union(direct[i], *(direct[j] for j in _reachable(hier, i)))) for i in range(n)]
-    for a in aliases:
-        a["needs"] = sorted(a["needs"] | set(needs[a["cls"]]))
+    texts, needs, aliases, reach = render_units(rng, hier, members, units, pos, home, inits,
+                                                text_order(rng, hier) if backward else range(n))
     split_roots = mode == "load" and rng.random() < 0.4
     roots = [f"s{k}" for k in range(len(tops))] if split_roots else ["."]
-    files = {}
-    for u in units:
-        t = _top(u)
-        root = "" if not split_roots else f"s{tops.index(t)}/"
-        rel = f"{t}.py" if shape[t] == "file" else (f"{t}/__init__.py" if u == t else f"{t}/{u.split('.')[1]}.py")
-        files[root + rel] = "\n".join(dict.fromkeys(imports[u])) + ("\n" if imports[u] else "") + "".join(bodies[u])
+    files = {("" if not split_roots else f"s{tops.index(_top(u))}/") + unit_file(u, inits): texts[u] for u in units}
     # the operations
     nloaders = rng.choice([1, 1, 2, 3])
     order = list(tops)
@@ -722,7 +884,7 @@ def gen_session(rng: random.Random, maxn: int) -> dict:  # noqa: C901, PLR0912, 
     final_order = list(range(n))
     rng.shuffle(final_order)
     return {"kind": "session", "mode": mode, "files": files, "roots": roots, "units": units, "home": home,
-            "hier": [list(b) for b in hier], "members": members, "needs": needs, "nloaders": nloaders,
+            "hier": [list(b) for b in hier], "members": members, "needs": needs, "nloaders": nloaders, "reach": reach,
             "extensions": rng.choice(["default", "default", "none"]) if mode == "load" else "none",
             "ops": ops, "final_order": final_order}
 
@@ -943,6 +1105,7 @@ def exec_session(rec, case: dict, steps):  # noqa: ANN001, ANN201, C901, PLR0912
             if mros[i] == CYCLE:
                 rec.count("session_cyclic_classes_judged")
     note_cycles(rec, hier, analysis)
+    note_reach(rec, case.get("reach", ()))
     return None
 
 
@@ -1093,6 +1256,9 @@ def run_shard(spec: dict, rec) -> None:  # noqa: ANN001
     elif spec["kind"] == "cyclic_sampled":
         for _ in range(spec["count"]):
             run_cyclic_sample(rec, rng, steps, spec["maxn"])
+    elif spec["kind"] == "trees":
+        for _ in range(spec["count"]):
+            run_tree(rec, gen_tree(rng, spec["maxn"]), steps)
     elif spec["kind"] == "sessions":
         for _ in range(spec["count"]):
             run_session(rec, gen_session(rng, spec["maxn"]), steps)
@@ -1113,6 +1279,9 @@ def run_replay(inp: dict, rec) -> None:  # noqa: ANN001
         return
     if inp.get("kind") == "session":
         run_session(rec, inp, steps)
+        return
+    if inp.get("kind") == "package-tree":
+        run_tree(rec, inp, steps)
         return
     files = inp.get("files") or {"m.py": inp["source"]}
     # generic oracle from text: parse class statements, rebuild with type()
